@@ -14,7 +14,7 @@ PROPERTY = "C07"
 LEVEL = "exploration"
 NEEDS = ("rust",)
 EXHAUSTIVE = {"quick": False, "thorough": False}
-REQUIRED_MONITORS = ["py_history_differential", "py_same_address_twin", "rust_history_differential", "py_split_run", "rust_split_run",
+REQUIRED_MONITORS = ["py_history_differential", "py_same_address_twin", "rust_history_differential", "py_split_run", "rust_split_run", "rust_runtime_split_run",
                      "rust_thread_stress", "fresh_process_determinism"]
 RULE = ("(1) every sampled accepted head is executed from a FRESH core and again on a long-lived core that has already "
         "executed every previous case of the shard (arbitrary history), with TEMP0-13 poisoned (seeded + boundary values), "
@@ -44,6 +44,8 @@ def plan(tier, seed):
     for i in range(n):
         specs.append({"kind": "split", "part": i, "parts": n, "seed": seed, "tier": tier, "idx": idx}); idx += 1
     specs.append({"kind": "threads", "seed": seed, "tier": tier, "idx": idx}); idx += 1
+    for i in range(2 if tier == "quick" else 8):
+        specs.append({"kind": "rtsplit", "seed": seed, "tier": tier, "idx": idx}); idx += 1
     return specs
 
 
@@ -301,6 +303,26 @@ def run_shard(spec) -> Result:
     res = Result()
     if spec["kind"] == "hist":
         run_hist(spec, res)
+    elif spec["kind"] == "rtsplit":
+        # N+M steps vs N then M on the real CoreRuntime (interrupts, timers, keyboard live): step(total) in one call vs
+        # total x step(1) vs several calls through the async runner - the machine-level twin of the executor split run
+        from . import c18
+        from .. import rust
+        r = rng(spec["seed"], "c07rt", spec["idx"])
+        jobs = c18.cpu_jobs(r, 60 if spec["tier"] == "quick" else 400, spec["tier"])
+        outs = rust.run("sched", [dict(j, id=i) for i, j in enumerate(jobs)], timeout=1800)
+        for j, o in zip(jobs, outs):
+            res.evaluations += 1
+            res.monitor("rust_runtime_split_run")
+            if o.get("sync_err") or o.get("sync1_err"):
+                continue
+            d = [k for k in o["sync1"] if o["sync"].get(k) != o["sync1"].get(k)]
+            if d:
+                res.violation({"clause": "step_n_differs_from_n_single_steps", "core": "rust_runtime", "fields": sorted(d)[:8]},
+                              {"kind": j["kind"], "n": j["n"], "timer": j["timer"], "code": j["code"][:1]},
+                              {k: (o["sync1"].get(k), o["sync"].get(k)) for k in d if k != "imem"})
+            elif o["sync"].get("instrs", 0) >= 5:
+                res.nontrivial("rtsplit", j["kind"], repr(j["code"][:1])[:100], tuple(j["n"]))
     elif spec["kind"] == "split":
         run_split(spec, res)
     else:
